@@ -96,3 +96,28 @@ Print Assumptions C06_resumed_each_connection_no_double.
 Example C06_example :
   snd (run 281474976710655 (win_init 2) [0; 3; 2; 3; 1; 2; 4]) = [0; 3; 2; 4].
 Proof. vm_compute. reflexivity. Qed.
+
+(* ---- records parked before the local handshake is marked established (conn.go
+   handleApplicationDataRecord / parkEarlyApplicationData): model Rec/RecvPark.v, proofs Rec/RecvParkSound.v ---- *)
+From DtlsV Require Import Rec.Recv Rec.RecvPark Rec.RecvParkSound.
+
+(* over every history of arrivals (before and after establishment, any duplication and order), the
+   establishment and Read calls: no (epoch, sequence number) is returned by Read twice, given that a
+   parked record is committed to its epoch's replay window at the moment it is parked *)
+Theorem C06_parked_records_are_replay_protected :
+  forall (W : nat) (ops : list pop), N.of_nat W <= maxseq48 ->
+    NoDup (snd (prun true W pinit ops)).
+Proof. exact parked_records_are_replay_protected. Qed.
+Print Assumptions C06_parked_records_are_replay_protected.
+
+(* the variant that parks without marking delivers a duplicate that arrives while the original is parked *)
+Theorem C06_parked_records_are_replay_protected_refuted :
+  exists (W : nat) (ops : list pop), N.of_nat W <= maxseq48 /\ ~ NoDup (snd (prun false W pinit ops)).
+Proof. exact park_without_mark_refuted. Qed.
+Print Assumptions C06_parked_records_are_replay_protected_refuted.
+
+(* non-vacuity: original parked, copy while parked, copy after establishment, a second record *)
+Example C06_park_example :
+  snd (prun true 64 pinit [PArrive 1 1; PArrive 1 1; PEstablish; PRead; PArrive 1 1; PArrive 1 2; PRead; PRead])
+  = [(1, 1); (1, 2)].
+Proof. vm_compute. reflexivity. Qed.
